@@ -310,6 +310,13 @@ class CFG:
         Returns None when no path exists."""
         start = start or self.entry
         end = end or self.exit
+        if end is not self.exit:
+            # paths stop at their first arrival at `end`
+            _user_ok = edge_ok
+            _end = end
+
+            def edge_ok(a, b, lab, _u=_user_ok, _e=_end):
+                return a is not _e and (_u is None or _u(a, b, lab))
         fwd = self.reachable(start, edge_ok=edge_ok)
         bwd = self.reachable(end, forward=False, edge_ok=edge_ok)
         live = fwd & bwd
